@@ -19,7 +19,7 @@ EXPLANATION = (
     "(mu0, mu1, threshold, y_left, y_right: (1,1); s0, s1: (1,0); t_left, t_right, t_opt, t_dist, i: (0,0)). A clash means the estimate "
     "changes when the waveform is expressed in another unit. sklearn/scipy routines are summarised as type-preserving (relative "
     "tolerances). C17.3: the record is shortened only at its end or by whole slots (start offsets multiples of sps), so the folded data "
-    "stay aligned with the independently built slot time axis. C17.4: the populations handed to shortest_int are selected by value, not cut from the sorted record at a position that depends on the record length alone (a fixed rank assumes equal numbers of ones and zeros). Decided: these clauses; not decided: accuracy of levels, sigmas, crossings, sampling index (data-dependent numerics).")
+    "stay aligned with the independently built slot time axis. C17.4: the populations handed to shortest_int are selected by value, not cut from the sorted record at a position that depends on the record length alone (a fixed rank assumes equal numbers of ones and zeros). C17.5: the folded record holds exactly the slots the time axis is built for: resampling keeps the slot rate (num*sps == len*sps_resamp, len being the symbolic sample count of the record) and without resampling the record has sps samples per slot of the axis. Decided: these clauses; not decided: accuracy of levels, sigmas, crossings, sampling index (data-dependent numerics).")
 TRUSTED = ["sklearn KMeans / scipy gaussian_kde / resample are equivariant under a common affine map of homogeneous data", "numpy semantics of mean/std/unique/roll"]
 
 F0, F1 = Fraction(0), Fraction(1)
